@@ -153,6 +153,25 @@ def hook_sharing_models():
              'docs': [M([(S('a'), d)]) for d in da] + [M([(S('a'), d), (S('b'), d)]) for d in da]}
         yield 'hook-sharing', {'classes': BASE + [em, tag, inn, k], 'root': ('cls', 'K')}
         yield 'hook-sharing', {'classes': BASE + [em, tag, inn, k], 'root': ('list', ('cls', 'K'))}
+        # the hooks are defined on a registered base class and only inherited by the class that is loaded
+        kb = dict(k, name='Kb', docs=[])
+        kd = {'name': 'K', 'bases': ['Kb'], 'params': list(k['params']) + [('c', 'int', 0)], 'docs': k['docs'],
+              'hooks': {'recognize': [('require_attr', 'a')]}}
+        yield 'hook-sharing', {'classes': BASE + [em, tag, inn, kb, kd], 'root': ('cls', 'K')}
+
+
+def union_class_models():
+    """two unrelated classes in a Union; which one a mapping is depends on the REQUIRED parameters of each, also when the
+    class has defaulted parameters followed by a (then necessarily defaulted) _yatiml_extra"""
+    for extra in (True, False):
+        for kparams in ([('x', 'int'), ('y', 'int', 0)], [('x', 'int'), ('w', 'str'), ('y', 'int', 0), ('v', 'str', 'd')],
+                        [('x', 'int')], [('y', 'int', 0)]):
+            k = {'name': 'K', 'params': kparams, 'extra': extra}
+            l_ = {'name': 'L', 'params': [('z', ('list', 'str'))]}
+            l2 = {'name': 'L', 'params': [('z', ('list', 'str')), ('y', 'int', 1)], 'extra': True}
+            for other in (l_, l2):
+                yield 'union-classes', {'classes': BASE + [k, other], 'root': ('union', [('cls', 'K'), ('cls', 'L')])}
+                yield 'union-classes', {'classes': BASE + [k, other], 'root': ('list', ('union', [('cls', 'L'), ('cls', 'K')]))}
 
 
 def element_order_models():
@@ -251,7 +270,8 @@ def all_load_models(tier):
     """the C02 catalogue: auto-recognised models"""
     out = []
     for gen in (root_models(), one_param_models(), two_param_models(full=(tier == 'thorough')),
-                nested_models(), seasoned_models(), shorthand_models(), element_order_models(), hook_sharing_models()):
+                nested_models(), seasoned_models(), shorthand_models(), element_order_models(), hook_sharing_models(),
+                union_class_models()):
         for fam, spec in gen:
             if spec is not None:
                 out.append((fam, spec))
